@@ -540,6 +540,9 @@ def rule_key_paths(ctx, rid):
 
 
 def _key_paths_literal(ctx, rid, m, fi):
+    """The accessor evaluated on the literal keys 'k0', 'k0/k1', 'k0/k1/k2', 'k0/k1/k2/k3' with the key transform
+    inlined.  Every returning path (whatever the tests on the store's content it took) must touch exactly the
+    addressed entry: one read / one store of the given value / one deletion at store[k0]..[kn] and nothing else."""
     P = ctx.P
     results = []
     for arity in (1, 2, 3, 4):
@@ -548,8 +551,8 @@ def _key_paths_literal(ctx, rid, m, fi):
         args = {'key': C('/'.join(comps))}
         exits = ev.run(fi, args=args)
         ctx.paths += len(exits)
-        if any(e.state.conds for e in exits) or not exits:
-            return False        # a decision the literal key does not settle
+        if not exits:
+            return False
         store = ('attr', S('self'), 'store')
         want = store
         for c_ in comps:
@@ -563,37 +566,47 @@ def _key_paths_literal(ctx, rid, m, fi):
                 results.append(('bad', c, "'k0/k1/k2/k3' is accepted and accesses %s" % show(
                     [e for e in exits if e.kind != 'raise'][0].value)[:80]))
             continue
-        if len(exits) != 1:
-            return False
-        e = exits[0]
-        if e.kind == 'raise':
-            if e.value[0] == 'fault':
-                results.append(('bad', c, 'key %r: %s (%s)' % (args['key'][1], e.value[1], e.value[2])))
-                continue
+        rets = [e for e in exits if e.kind != 'raise']
+        faults = [e for e in exits if e.kind == 'raise' and e.value[0] == 'fault']
+        if faults:
+            e = faults[0]
+            results.append(('bad', c, 'key %r: %s (%s)' % (args['key'][1], e.value[1], e.value[2])))
+            continue
+        if not rets:
+            e = exits[0]
             results.append(('bad', c, 'key %r is rejected: %s' % (args['key'][1], show(e.value)[:80])))
             continue
-        if m == '__getitem__':
-            loc = e.value
-        else:
-            kind = 'setitem' if m == '__setitem__' else 'delitem'
-            effs = [eff for eff in e.state.effects if eff[0] == kind]
-            others = [eff for eff in e.state.effects if eff[0] in ('setitem', 'delitem') and eff[0] != kind]
-            if len(effs) != 1 or others:
+        verdict = None
+        for e in rets:
+            under = '; '.join('%s is %s' % (show(cd)[:50], tr) for cd, tr, ln in e.state.conds[:2])
+            under = (' (when %s)' % under) if under else ''
+            if m == '__getitem__':
+                loc = e.value
+            else:
+                kind = 'setitem' if m == '__setitem__' else 'delitem'
+                effs = [eff for eff in e.state.effects if eff[0] == kind]
+                others = [eff for eff in e.state.effects if eff[0] in ('setitem', 'delitem') and eff[0] != kind]
                 if not effs and not others:
-                    results.append(('bad', c, 'key %r: nothing is %s' % (args['key'][1],
-                                                                          'stored' if kind == 'setitem' else 'deleted')))
-                    continue
+                    verdict = ('bad', 'key %r: nothing is %s%s' % (args['key'][1], 'stored' if kind == 'setitem' else 'deleted', under))
+                    break
+                if len(effs) > 1 or others:
+                    extra = [x for x in effs[1:] + others]
+                    verdict = ('bad', 'key %r: besides the addressed entry the accessor also %s %s%s' % (
+                        args['key'][1], 'stores into' if extra[0][0] == 'setitem' else 'deletes',
+                        show(('sub', extra[0][1], extra[0][2]))[:60], under))
+                    break
+                loc = ('sub', effs[0][1], effs[0][2])
+                if kind == 'setitem' and effs[0][3] != S('value'):
+                    verdict = ('bad', 'key %r: the value stored is %s' % (args['key'][1], show(effs[0][3])[:60]))
+                    break
+            if loc == want:
+                verdict = verdict or ('pass', show(loc)[-60:])
+            elif loc is not None and _rooted_at_store(loc):
+                verdict = ('bad', 'key %r accesses %s, expected %s%s' % (args['key'][1], show(loc)[:100], show(want), under))
+                break
+            else:
                 return False
-            loc = ('sub', effs[0][1], effs[0][2])
-            if kind == 'setitem' and effs[0][3] != S('value'):
-                results.append(('bad', c, 'key %r: the value stored is %s' % (args['key'][1], show(effs[0][3])[:60])))
-                continue
-        if loc == want:
-            results.append(('pass', c, show(loc)[-60:]))
-        elif loc is not None and _rooted_at_store(loc):
-            results.append(('bad', c, 'key %r accesses %s, expected %s' % (args['key'][1], show(loc)[:100], show(want))))
-        else:
-            return False
+        results.append((verdict[0], c, verdict[1]))
     for verdict, c, msg in results:
         if verdict == 'pass':
             ctx.passed(rid, fi, c, msg)
@@ -631,6 +644,42 @@ def _chain(loc):
     if t is None or not (t[0] == 'attr' and t[2] == 'store'):
         return -1, idxs
     return len(idxs), idxs
+
+
+def rule_get_func(ctx, rid):
+    """The callable built from a configuration is the configured variant with exactly the options stored at the time of
+    the call (a cached partial would go on using the options of an earlier state of the configuration)."""
+    P = ctx.P
+    cls = 'emd.sift.SiftConfig.'
+    SELF_T = ('attr', S('self'), 'sift_type')
+    SELF_STORE = ('attr', S('self'), 'store')
+    # the callable built from a configuration is the configured variant with exactly the stored options
+    gf = P.func(cls + 'get_func')
+    c = 'get_func == partial(<variant named by the own type>, **own store)'
+    gexits = [e for e in Evaluator(P).run(gf) if e.kind == 'return']
+    okg = bool(gexits)
+    why = 'no return path'
+    for e in gexits:
+        v = e.value
+        good = False
+        if v[0] == 'call' and v[1] == 'functools.partial' and len(v[2]) == 1 and len(v[3]) == 1 and v[3][0][0] == '**':
+            kw = v[3][0][1]
+            while (kw[0] == 'meth' and kw[1] == 'copy') or (kw[0] == 'call' and kw[1] in ('builtins.dict', 'copy.copy',
+                                                                                         'copy.deepcopy') and len(kw[2]) == 1):
+                kw = kw[2] if kw[0] == 'meth' else kw[2][0]
+            f = v[2][0]
+            named = (f[0] == 'call' and f[1] == 'builtins.getattr' and len(f[2]) == 2 and f[2][1] == SELF_T
+                     and f[2][0][0] == 'sub' and f[2][0][1] == ('ref', 'sys.modules')) \
+                or (f[0] == 'sub' and f[2] == SELF_T and f[1][0] == 'call' and f[1][1] == 'builtins.globals')
+            good = named and kw == SELF_STORE
+        if not good:
+            okg = False
+            why = 'returns %s' % show(v)[:120]
+    if okg:
+        ctx.passed(rid, gf, c)
+    else:
+        ctx.violation(rid, gf, c, 'the callable of a configuration is not its own variant bound to its own options: '
+                      + why, expected='functools.partial(getattr(<this module>, self.sift_type), **self.store)')
 
 
 # ----------------------------------------------------------------------------------------------
@@ -677,33 +726,7 @@ def rule_yaml_pairing(ctx, rid):
                       'refuses', expected='_array_or_tuple_to_list(copy of self.store)', found=show(store_t)[:80])
     else:
         ctx.passed(rid, safe, c)
-    # the callable built from a configuration is the configured variant with exactly the stored options
-    gf = P.func(cls + 'get_func')
-    c = 'get_func == partial(<variant named by the own type>, **own store)'
-    gexits = [e for e in Evaluator(P).run(gf) if e.kind == 'return']
-    okg = bool(gexits)
-    why = 'no return path'
-    for e in gexits:
-        v = e.value
-        good = False
-        if v[0] == 'call' and v[1] == 'functools.partial' and len(v[2]) == 1 and len(v[3]) == 1 and v[3][0][0] == '**':
-            kw = v[3][0][1]
-            while (kw[0] == 'meth' and kw[1] == 'copy') or (kw[0] == 'call' and kw[1] in ('builtins.dict', 'copy.copy',
-                                                                                         'copy.deepcopy') and len(kw[2]) == 1):
-                kw = kw[2] if kw[0] == 'meth' else kw[2][0]
-            f = v[2][0]
-            named = (f[0] == 'call' and f[1] == 'builtins.getattr' and len(f[2]) == 2 and f[2][1] == SELF_T
-                     and f[2][0][0] == 'sub' and f[2][0][1] == ('ref', 'sys.modules')) \
-                or (f[0] == 'sub' and f[2] == SELF_T and f[1][0] == 'call' and f[1][1] == 'builtins.globals')
-            good = named and kw == SELF_STORE
-        if not good:
-            okg = False
-            why = 'returns %s' % show(v)[:120]
-    if okg:
-        ctx.passed(rid, gf, c)
-    else:
-        ctx.violation(rid, gf, c, 'the callable of a configuration is not its own variant bound to its own options: '
-                      + why, expected='functools.partial(getattr(<this module>, self.sift_type), **self.store)')
+    rule_get_func(ctx, rid)
     T = S('T?sift_type')
     STORE = S('STORE?')
     shape = ('list', (('dict', ((C('sift_type'), T),)), STORE))
